@@ -199,6 +199,22 @@ def gen_cuts(rng, sig):
 
 # ------------------------------------------------------------------ real-code calls
 
+def _narrow_dtype(sig, kind):
+    """A dtype that represents every sample of the whole signal exactly, or None."""
+    arr = np.asarray(sig, dtype=np.float64)
+    if kind == "f32":
+        return np.float32 if np.array_equal(arr.astype(np.float32).astype(np.float64), arr) else None
+    if not np.array_equal(np.round(arr), arr):
+        return None
+    lo, hi = float(arr.min()), float(arr.max())
+    for dt in ((np.uint8, np.uint16, np.uint32) if lo >= 0 else ()) + (np.int8, np.int16, np.int32, np.int64):
+        info = np.iinfo(dt)
+        if info.min <= lo and hi <= info.max:
+            # deterministic pick among the fitting dtypes: the narrowest one, or a wider one
+            return dt
+    return None
+
+
 def _mk(det, rec):
     try:
         return DETS[det](recorder=RECS[rec]())
@@ -233,9 +249,12 @@ def observe(d, det, rec):
         raise RealCodeError("observe", e)
 
 
-def one_piece(det, rec, prefix, flush=False):
+def one_piece(det, rec, prefix, flush=False, dtype=None):
     d = _mk(det, rec)
-    _feed(d, np.array(prefix, dtype=np.float64), flush)
+    arr = np.array(prefix, dtype=np.float64)
+    if dtype is not None:
+        arr = arr.astype(dtype)
+    _feed(d, arr, flush)
     return d, observe(d, det, rec)
 
 
@@ -259,7 +278,7 @@ def generate(prop, rng, tier):
         det = rng.choice(["tp", "fp", "fkm"])
         reps.append({"det": det, "rec": rng.choice(["full", "full", "value"]),
                      "cuts": gen_cuts(rng, sig),
-                     "container": rng.choice(["ndarray", "ndarray", "ndarray", "list", "series", "strided", "readonly"])})
+                     "container": rng.choice(["ndarray", "ndarray", "ndarray", "list", "series", "strided", "readonly", "int", "int", "f32"])})
     order = []
     for r, rp in enumerate(reps):
         order += [r] * (len(rp["cuts"]) + 1)
@@ -276,6 +295,8 @@ def generate(prop, rng, tier):
                 if not left[r]:
                     del left[r]
     tr = {"world": NAME, "signal": sig, "replicas": reps, "order": order}
+    if prop == "C02":
+        tr["spec_dtype"] = rng.choice([None, None, "int", "f32"])
     if prop == "C01":
         tr["final_flush"] = rng.random() < 0.25
         tr["scribble"] = rng.random() < 0.3
@@ -352,6 +373,14 @@ def _execute(prop, trace):
             chunk = wide[0::2]                 # a non-contiguous view
         elif cont == "readonly":
             chunk.setflags(write=False)        # e.g. a memory-mapped recording
+        elif cont in ("int", "f32"):
+            # the same numbers in a narrower / integer dtype (ADC counts), only if they are representable
+            dt = _narrow_dtype(sig, cont)
+            if dt is not None:
+                chunk = chunk.astype(dt)
+                cont = cont + ":" + np.dtype(dt).name
+            else:
+                cont = "ndarray"
         out.count("container:" + cont)
         st["delivered"].append(sig[a:b])
         det, rec = rp["det"], rp["rec"]
@@ -388,7 +417,12 @@ def _execute(prop, trace):
             if nchunks >= 3:
                 out.count("probe:three_or_more_chunks")
     if prop == "C02":
-        check_c02_spec(out, sig, log)
+        sd = None
+        if trace.get("spec_dtype") in ("int", "f32"):
+            sd = _narrow_dtype(sig, trace["spec_dtype"])
+            if sd is not None:
+                out.count("container:spec:" + np.dtype(sd).name)
+        check_c02_spec(out, sig, log, sd)
     out.digest = log.digest()
     return out
 
@@ -505,7 +539,7 @@ def check_c02_accounting(out, st, rp, r, prefix, o):
         st["dead"] = True
 
 
-def check_c02_spec(out, sig, log):
+def check_c02_spec(out, sig, log, spec_dtype=None):
     """I3: one-piece replicas against the executable definition, on the whole
     signal and on a few prefixes."""
     n = len(sig)
@@ -533,7 +567,7 @@ def check_c02_spec(out, sig, log):
             return
         for det in ("fp", "tp", "fkm"):
             try:
-                _, o = one_piece(det, "full" if det != "fkm" else "value", pre)
+                _, o = one_piece(det, "full" if det != "fkm" else "value", pre, dtype=spec_dtype)
             except RealCodeError as e:
                 out.violate("exception", "%s/%s" % (det, e.where), {"one_piece_prefix": m, "type": e.exc_type, "msg": e.msg})
                 return
@@ -607,8 +641,13 @@ def generate_c03(rng, tier):
         k = rng.randint(1, 4)
         tw["nan_after"] = sorted(rng.randint(0, n - 2) for _ in range(k))   # NaN inserted after original index i (i <= n-2)
     elif kind == "affine":
-        tw["a"] = 2.0 ** rng.randint(-3, 5)
-        tw["b"] = float(rng.randint(-64, 64)) / rng.choice([1, 2, 8])
+        if rng.random() < 0.3:
+            # very small / very large exact scales (strain-like or Pa-like units): steps far below 1e-8 or above 1e8
+            tw["a"] = 2.0 ** rng.choice([-27, -30, -40, 30, 40])
+            tw["b"] = tw["a"] * rng.randint(-64, 64)
+        else:
+            tw["a"] = 2.0 ** rng.randint(-3, 5)
+            tw["b"] = float(rng.randint(-64, 64)) / rng.choice([1, 2, 8])
     elif kind == "container":
         tw["index"] = rng.choice(["range", "shuffled", "float", "datetime", "string", "offset", "dupint"])
         tw["perm_seed"] = rng.randint(0, 10 ** 6)
